@@ -32,12 +32,14 @@ Template directives (all start with `//@@`; payloads in <<< >>> may span lines):
                                          (rule R13: each `return E;` in it is kept as `if cut_region_exit() { return E; }`);
                                          the number of dropped lines is reported in the evidence
   //@@ LOOPBODY n <<<text>>>             insert ghost text at the START of the body of the n-th loop (runs on every iteration)
+  //@@ AFTERLOOP n <<<text>>>            insert ghost text right after the n-th loop
   //@@ BEFOREEACH <<<anchor>>> <<<text>>>  insert ghost text before EVERY occurrence of anchor (none is fine)
   //@@ CUTBLOCK <<<anchor>>> <<<text>>>   the contents of the first `{ .. }` block after `anchor` (brace-matched)
                                          are replaced by `text`; dropped lines are reported in the evidence
   //@@ FORWHILE n                        rule R9: the n-th loop, `for x in a..b { B }`, is desugared to
                                          `let mut verif_it = a; let verif_end = b; while verif_it < verif_end { let x = verif_it; verif_it += 1; B }`
                                          (Verus for-loops do not support `continue`); `for x in (a..b).rev()` likewise, counting down
+  //@@ R14                               rule R14: every `L op= E;` in the body is written out as `L = L op (E);`
   //@@ BODY                              emit `{ transformed body }`
   //@@ CHECKSIG <file> :: <hdr>.. <<<sig>>>  only checks that a (bodiless) declaration
                                          still has this signature
@@ -333,6 +335,34 @@ def r10_edits(body, msk, writer, log, cuts=(), wexpr=None, record=False):
     return edits
 
 
+def r14_edits(body, msk, log):
+    """rule R14: a compound assignment `L op= E;` (op one of + - * /) is written out as `L = L op (E);` --
+    the same evaluation (L is a place expression without side effects: a local, `*ident`, a field path);
+    Verus has no compound assignment on floats"""
+    edits = []
+    for m in re.finditer(r'(?<![-+*/=<>!&|^%])([-+*/])=(?!=)', msk):
+        op = m.group(1)
+        a = m.start()
+        while a > 0 and msk[a - 1] not in ';{}':
+            a -= 1
+        lhs = body[a:m.start()].strip()
+        if not re.fullmatch(r'\*?\s*\w+(\s*\.\s*\w+)*', lhs):
+            raise LostAnchor(f'R14: left side {lhs!r} of a compound assignment is not a plain place expression')
+        depth, e = 0, m.end()
+        while e < len(msk) and not (msk[e] == ';' and depth == 0):
+            if msk[e] in '([{':
+                depth += 1
+            elif msk[e] in ')]}':
+                depth -= 1
+            e += 1
+        if e >= len(msk):
+            raise LostAnchor('R14: compound assignment without a terminating `;`')
+        edits.append((m.start(), m.end(), f'= {lhs} {op} ('))
+        edits.append((e, e, ')'))
+        log['R14 compound assignment written out'] = log.get('R14 compound assignment written out', 0) + 1
+    return edits
+
+
 def r12_edits(body, msk, log):
     """R12, mechanical: the crate is verified as the pinned test command builds it, i.e. WITHOUT the
     optional `tracing` feature: every statement / block under `#[cfg(feature = "tracing")]` is removed,
@@ -526,6 +556,8 @@ def _find_spans(body, anchor):
 
 
 def _find_from(body, anchor, start=0):
+    if anchor.strip() == '$END':      # the end of the function body
+        return (len(body), len(body))
     m = _anchor_re(anchor).search(body, start)
     return (m.start(), m.end()) if m else (-1, -1)
 
@@ -582,6 +614,15 @@ def transform_body(body, dirs, log):
             k, br = lp[n]
             edits.append((br + 1, br + 1, ' ' + text))
             log['R5 proof insert'] = log.get('R5 proof insert', 0) + 1
+        elif kind == 'AFTERLOOP':
+            n, text = d[1], d[2]
+            lp = find_loops(body)
+            if n >= len(lp):
+                raise LostAnchor(f'loop #{n} not found (have {len(lp)})')
+            from extract import match_close
+            c = match_close(msk, lp[n][1])
+            edits.append((c + 1, c + 1, ' ' + text))
+            log['R5 proof insert'] = log.get('R5 proof insert', 0) + 1
         elif kind == 'SUB':
             cnt, old, new = d[1], d[2], d[3]
             pos = _find_spans(body, old)
@@ -631,6 +672,18 @@ def transform_body(body, dirs, log):
                 var, lo_, hi_ = m.group(1), m.group(2).strip(), m.group(3).strip()
                 edits.append((k, br, f'let mut verif_it: usize = {lo_}; let verif_end: usize = {hi_}; while verif_it < verif_end '))
                 edits.append((br + 1, br + 1, f' let {var} = verif_it; verif_it = verif_it + 1;'))
+            elif re.fullmatch(r'for\s+\(\s*(\w+)\s*,\s*(\w+)\s*\)\s+in\s+(\w+)\s*\.iter\(\)\s*\.copied\(\)\s*\.enumerate\(\)\s*', body[k:br], flags=re.S):
+                # `for (i, x) in v.iter().copied().enumerate()`: the index runs over 0..v.len(), x is the copy of v[i]
+                me = re.fullmatch(r'for\s+\(\s*(\w+)\s*,\s*(\w+)\s*\)\s+in\s+(\w+)\s*\.iter\(\)\s*\.copied\(\)\s*\.enumerate\(\)\s*', body[k:br], flags=re.S)
+                iv, xv, vec = me.group(1), me.group(2), me.group(3)
+                edits.append((k, br, f'let mut verif_it: usize = 0; while verif_it < {vec}.len() '))
+                edits.append((br + 1, br + 1, f' let {iv} = verif_it; let {xv} = {vec}[verif_it]; verif_it = verif_it + 1;'))
+            elif re.fullmatch(r'for\s+(\w+)\s+in\s+([\w.]+?)\s*\.iter_mut\(\)\s*', body[k:br], flags=re.S):
+                # `for h in v.iter_mut()`: h is `&mut v[i]` for i in 0..v.len(), in order (v a Vec / slice place)
+                mm = re.fullmatch(r'for\s+(\w+)\s+in\s+([\w.]+?)\s*\.iter_mut\(\)\s*', body[k:br], flags=re.S)
+                hv, vec = mm.group(1), mm.group(2)
+                edits.append((k, br, f'let mut verif_it: usize = 0; while verif_it < {vec}.len() '))
+                edits.append((br + 1, br + 1, f' let {hv} = &mut {vec}[verif_it]; verif_it = verif_it + 1;'))
             else:
                 mi = re.fullmatch(r'for\s+(.+?)\s+in\s+(\w+)\s*', body[k:br], flags=re.S)
                 if not mi:
@@ -661,6 +714,8 @@ def transform_body(body, dirs, log):
             edits.extend(r7_edits(body, msk, d[1], log, cuts))
         elif kind == 'R12':
             edits.extend(r12_edits(body, msk, log))
+        elif kind == 'R14':
+            edits.extend(r14_edits(body, msk, log))
         elif kind == 'R10':
             opt = d[2] or ''
             rec = 'mode=record' in opt.split()
@@ -809,7 +864,7 @@ def assemble(template_path, repo):
                         sig = p[0]
                     elif kind == 'SELF':
                         dirs.append(('SELF', toks[2]))
-                    elif kind in ('CLOSURE', 'LOOP', 'LOOPBODY'):
+                    elif kind in ('CLOSURE', 'LOOP', 'LOOPBODY', 'AFTERLOOP'):
                         dirs.append((kind, int(toks[2]), p[0]))
                     elif kind == 'SUB':
                         dirs.append(('SUB', -1 if toks[2] == '*' else int(toks[2]), p[0], p[1]))   # `*`: every occurrence, none is fine
@@ -829,6 +884,8 @@ def assemble(template_path, repo):
                         dirs.append(('R7', toks[2]))
                     elif kind == 'R12':
                         dirs.append(('R12',))
+                    elif kind == 'R14':
+                        dirs.append(('R14',))
                     elif kind == 'R10':
                         dirs.append(('R10', toks[2], ' '.join(toks[3:]) or None))
                     else:
